@@ -987,6 +987,19 @@ class ContainerEngine:
             k = g.choices(kinds, [w[x] for x in kinds])[0]
             if k == "data":
                 op = dgen.gen(sh)
+                if op["op"] in ("copy", "move") and ms.pairs() and g.random() < 0.4 and op.get("how") != "group":
+                    # prefer a source that carries metadata at or below it
+                    p0, _ = g.choice(ms.pairs())
+                    anc = [p0]
+                    q = p0
+                    while T.Shadow.parent(q) not in ("/", q):
+                        q = T.Shadow.parent(q)
+                        anc.append(q)
+                    src = g.choice(anc)
+                    if src in sh.nodes and src != "/":
+                        op["base"], op["src"] = "/", src
+                        if op["dst"].startswith(src.rstrip("/") + "/") or not op["dst"].startswith("/"):
+                            op["dst"] = "/" + dgen.key() + "_cp"
                 if op["op"] == "copy" and g.random() < 0.3:
                     op["without_meta"] = True
                 sh.apply(op)
